@@ -206,7 +206,8 @@ BodyPool == << Ty("object") @@ [props |-> [k |-> <<ka, kb>>, v |-> <<Ty("integer
                Ty("object") @@ [props |-> [k |-> <<ka>>, v |-> <<Ty("string") @@ [format |-> "date"]>>], required |-> <<ka>>],   \* 10
                Ty("string") @@ [pattern |-> PatWordBoth, maxLength |-> 5],    \* 11
                Ty("number"),                                             \* 12  every integer is a number: type negation must not yield integers
-               Ty("number") @@ [minimum |-> 0] >>                        \* 13
+               Ty("number") @@ [minimum |-> 0],                          \* 13
+               Ty("object") @@ [props |-> [k |-> <<ka, kb>>, v |-> <<RO(Ty("integer")), Ty("string") @@ [minLength |-> 1]>>], required |-> <<ka, kb>>] >>   \* 14  readOnly AND required
 Bd(media, bi, req) == [media |-> media, schema |-> BodyPool[bi], required |-> req]
 MJson == "application/json"
 MText == "text/plain"
@@ -228,7 +229,15 @@ Cfgs == {[allow_x00 |-> x, codec |-> c, security |-> s] : x \in BOOLEAN, c \in {
 (* the Path Item the operation (always POST) lives in: written inline or behind a local $ref, alone or next to other documented methods *)
 ItemInline == [ref |-> FALSE, also |-> <<>>]
 Items == {[ref |-> r, also |-> a] : r \in BOOLEAN, a \in {<<>>, <<"get">>, <<"get", "put">>}}
-Op(g, d, ps, bs, cf) == [kind |-> "op", group |-> g, dialect |-> d, params |-> ps, bodies |-> bs, cfg |-> cf, defs |-> NoRefDefs, item |-> ItemInline]
+(* how the document SPELLS the operation's inputs (same meaning, different lookup path in the implementation):                      *)
+(*   params   "inline" in the operation | "ref" (Parameter Objects behind $ref) | "path" (declared on the Path Item, shared)          *)
+(*   schemaIn "schema" | "content" (3.x: parameter described by content: {application/json: {schema}})                                *)
+(*   body     "inline" | "ref" (3.x requestBody behind $ref; 2.0: the body parameter behind $ref)                                     *)
+SpellPlain == [params |-> "inline", schemaIn |-> "schema", body |-> "inline"]
+Spellings(d) == {[params |-> a, schemaIn |-> b, body |-> c] : a \in {"inline", "ref", "path"}, b \in (IF d = "2.0" THEN {"schema"} ELSE {"schema", "content"}),
+                                                                 c \in {"inline", "ref"}} \ {SpellPlain}
+Op(g, d, ps, bs, cf) == [kind |-> "op", group |-> g, dialect |-> d, params |-> ps, bodies |-> bs, cfg |-> cf, defs |-> NoRefDefs, item |-> ItemInline,
+                         spell |-> SpellPlain]
 Cfg0 == [allow_x00 |-> TRUE, codec |-> "utf-8", security |-> FALSE]
 None3 == <<0, 0, 0>>
 MkOp(g, d, q, p, h, c, b, cf) ==
@@ -298,6 +307,23 @@ IsOpDesc(x) ==
   \/ Family = "c01" /\ \E d \in AllD, loc \in {"path", "query", "header", "cookie", "body"}, k \in DOMAIN KwLeaves :
         /\ KwExpressible(d, loc, k) /\ (Rich \/ d = "3.0" \/ <<d, k>> \in KwQuickPairs)
         /\ x = KwOp(d, loc, k)
+  (* --- spellings: one operation with a parameter in every location and a body, written in every way the dialect allows --- *)
+  \/ \E d \in OpDialects \cup {"2.0"} : \E sp \in Spellings(d) :
+        x = [MkOp("spelling", d, <<2, 1, 0>>, <<2, 1, 0>>, <<1, 2, 0>>, IF d = "2.0" THEN None3 ELSE <<2, 1, 0>>, <<2, 1, 0>>, Cfg0) EXCEPT !.spell = sp]
+  (* --- local references: parameter / body / nested schemas behind $ref (depth 1, 2, recursive below an optional property) --- *)
+  \/ \E d \in OpDialects \cup {"2.0"}, j \in DOMAIN RefSchemas :
+        x = [Op("ref", d, <<>>, <<[media |-> MJson, schema |-> RefSchemas[j], required |-> TRUE]>>, Cfg0) EXCEPT !.defs = RefDefs]
+  \/ \E d \in (OpDialects \cup {"3.1"}) \cap D3, loc \in {"path", "query", "header", "cookie"} :
+        x = [Op("ref", d, <<[loc |-> loc, name |-> KwLocName(loc), required |-> TRUE, schema |-> S0 @@ [ref |-> "A"]]>>, <<>>, Cfg0) EXCEPT !.defs = RefDefs]
+  (* --- form bodies: urlencoded / multipart objects (2.0: formData parameters) incl. a readOnly property that is listed as required --- *)
+  \/ \E d \in OpDialects \cup {"2.0"}, m \in {"application/x-www-form-urlencoded", "multipart/form-data"}, b \in {1, 14}, r \in BOOLEAN :
+        /\ (d = "2.0" => b = 1)
+        /\ x = Op("form", d, <<>>, <<[media |-> m, schema |-> BodyPool[b], required |-> r]>>, Cfg0)
+  \/ \E d \in OpDialects \cup {"2.0"} : x = MkOp("readOnly-required", d, None3, None3, None3, None3, <<2, 14, 0>>, Cfg0)
+  (* --- pattern x length: every catalogue pattern with the length keywords the implementation folds into its quantifier --- *)
+  \/ Family = "c01" /\ \E d \in {"3.0"}, loc \in {"query", "body"}, pi \in 1..12, l \in {<<1, 3>>, <<Absent, 2>>, <<2, Absent>>} :
+        x = (IF loc = "body" THEN Op("pattern+length", d, <<>>, <<[media |-> MJson, schema |-> StrLeaf(l[1], l[2], pi, 0), required |-> TRUE]>>, Cfg0)
+             ELSE Op("pattern+length", d, <<[loc |-> loc, name |-> nQ1, required |-> TRUE, schema |-> StrLeaf(l[1], l[2], pi, 0)]>>, <<>>, Cfg0))
   \/ Family # "c03o" /\ \E a \in {2, 6}, cf \in Cfgs : x = MkOp("config", "3.0", <<2, a, 0>>, None3, <<2, a, 0>>, None3, <<2, 1, 0>>, cf)
 
 (* Histories (C03): the coverage cases of operation A, then of operation B, generated in ONE process (labels are objects that *)
